@@ -17,6 +17,7 @@ emissions of the fallback source `dF`, fallback failure `cF`, and `round` = one 
 import Frequenz.Lemmas.FallbackClosed
 import Frequenz.Extracted.Evaluator
 import Frequenz.Lemmas.FallbackTie
+import Frequenz.Extracted.FallbackMetrics
 
 open Fallback
 
@@ -220,3 +221,20 @@ example :
     FallbackTie.Rel σ c ∧ (round σ).map (·.out) = some [.sample ⟨12, some 212⟩] ∧
     (∃ c', Extracted.FallbackPull.fetch_next c = .ok (some ⟨12, some (.num 212)⟩) c') := by
   refine ⟨⟨rfl, rfl, rfl, rfl, rfl, rfl, rfl⟩, by decide, ⟨_, rfl⟩⟩
+
+/-! ### The fallback formula measures the same quantity -/
+
+/-- **Same metric.**  `Extracted.FallbackMetrics.rows` lists, from the current source, every place where a formula
+generator wraps a fallback formula (`FallbackFormulaMetricFetcher(<generator>)`), with the `ComponentMetricId` member
+and the create method (unit) the generator passes to `_get_builder` for its own formula and those the wrapped generator
+passes for the fallback formula.  Every fallback formula requests the SAME metric, in the same unit, as the formula it
+backs — "the term's value is taken from the sum of its fallback components" is a sum of the same quantity — and the
+sites are exactly the six generated formulas the harness drives (grid power, grid reactive power, consumer, producer,
+PV and battery power).  A generator whose metric cannot be read off makes the extraction fail. -/
+theorem C19_fallback_same_metric :
+    (∀ r ∈ Extracted.FallbackMetrics.rows, r.primaryMetric = r.fallbackMetric ∧ r.primaryCreate = r.fallbackCreate) ∧
+    Extracted.FallbackMetrics.rows.map (·.primary) =
+      ["BatteryPowerFormula", "ConsumerPowerFormula", "GridPowerFormula", "GridReactivePowerFormula", "PVPowerFormula",
+       "ProducerPowerFormula"] ∧
+    (∃ r ∈ Extracted.FallbackMetrics.rows, r.primaryMetric = "REACTIVE_POWER") := by
+  decide
